@@ -892,6 +892,7 @@ pub fn ser(cx: &mut Raw) {
         "timestamp(253402300799)", "timestamp(-62135596800)", "[timestamp('2262-04-12T00:00:00Z'), timestamp('1677-09-21T00:00:00Z')]",
         "duration(9000000000, 0)", "duration(-9000000000, 0)", "duration(9007199254740, 993000000)", "duration(-9007199254740, -993000000)", "duration(9223372036854775)",
         "[duration(9007199254741, 1000000), timestamp(9007199254741)]", "duration('2540400h')", "{'t': timestamp('3000-06-01T00:00:00Z')}",
+        "b''", "''", "[]", "{}", "[b'', '', [], {}]", "{'k': b''}", "bytes('')", "f(b'', '')",
         "1/0", "[1/0]", "{'k': 1 % 0}", "size(5)", "[1, 2][5]", "-(-9223372036854775807 - 1)",
         "a + b", "a.b.c", "a[b]", "f(a, b + 1)", "a.f(b)", "a ? b : c", "a || b && !c", "-a", "a in b", "a < b", "a <= b", "a == b", "a != b", "a >= b", "a > b", "a - b", "a * b", "a / b", "a % b",
         "[a, b]", "{'k': a, c: b}", "a.map(x, x + b)", "a.filter(x, x > b)", "a.reduce(acc, x, acc + x, 0)", "has(m.a)", "coalesce(m.zz, a)", "f'{a}-{b}'", "match a { case int: 1, case > b: 2, case _: 3 }",
